@@ -923,6 +923,8 @@ class SupervisorNamespaceRPCInterface:
         @param  string  data  Data for the event body
         @return boolean       Always return True unless error
         """
+        self._update('sendRemoteCommEvent')
+
         if isinstance(type, unicode):
             type = type.encode('utf-8')
         if isinstance(data, unicode):
